@@ -5,6 +5,9 @@ from vlib import Infra
 import props.algo_common as ac
 
 
+FILLS = ["zero", "max"]   # a poisoned slab too: the recurrence reads only cells it has written
+
+
 def kf_rec(r):
     if r["kind"] == "v2" and r["fwd"] and len(r["p"]) == 1 and r["s"] >= 0:
         return {"finding": "F13", "fn": "FuzzyMatchV2", "field": "score", "forward": True, "patlen": 1}
@@ -13,7 +16,7 @@ def kf_rec(r):
 
 def run(ctx):
     if ctx.replay:
-        return ac.replay(ctx, 'score', ['zero'], kf_rec=kf_rec)
+        return ac.replay(ctx, "score", FILLS, kf_rec=kf_rec)
     # (1) design theorems: the DP score is the score of an existing alignment, never above the best one; V1 and the
     #     exact family are scored as the occurrence they report (by construction: SpanResult)
     ac.model_check(ctx, ["MC_AlgoS_quick.cfg"] if ctx.quick else ["MC_AlgoS.cfg", "MC_AlgoS_p3.cfg"], workers=ac.par(ctx) * 2)
@@ -31,11 +34,11 @@ def run(ctx):
             if "case" in rc:
                 with open(cpath, "w") as fh:
                     fh.write(json.dumps(rc["case"]) + "\n")
-        summary, recs = ac.run_cases(ctx, h, cpath, tpath, "score", ["zero"], label)
+        summary, recs = ac.run_cases(ctx, h, cpath, tpath, "score", FILLS, label)
         ac.check_table(ctx, summary, label)
         total_cases += summary["cases"]
         total_calls += summary["calls"]
-        for k, v in ac.report_bad(ctx, h, cpath, tpath, "score", ["zero"], label, [(r["line"], r["bad"]) for r in recs]).items():
+        for k, v in ac.report_bad(ctx, h, cpath, tpath, "score", FILLS, label, [(r["line"], r["bad"]) for r in recs]).items():
             counts[k] = counts.get(k, 0) + v
         os.remove(cpath)
         if ctx.replay:
